@@ -81,6 +81,9 @@ func (x *Mutex) Unlock() {
 }
 
 func (x *Mutex) TryLock() bool {
+	if core.Foreign() {
+		return x.mu.TryLock()
+	}
 	x.hook()
 	core.YieldLock(core.KTryLock, &x.m)
 	if !core.Active() {
@@ -150,6 +153,9 @@ func (x *RWMutex) RUnlock() {
 }
 
 func (x *RWMutex) TryLock() bool {
+	if core.Foreign() {
+		return x.mu.TryLock()
+	}
 	x.hook()
 	core.YieldLock(core.KTryLock, &x.m)
 	if !core.Active() {
@@ -165,6 +171,9 @@ func (x *RWMutex) TryLock() bool {
 }
 
 func (x *RWMutex) TryRLock() bool {
+	if core.Foreign() {
+		return x.mu.TryRLock()
+	}
 	x.hook()
 	core.YieldLock(core.KTryRLock, &x.m)
 	if !core.Active() {
